@@ -43,8 +43,70 @@ P = {
          "run = (text, include graph, reader faults, options, entry point); distinct = distinct hash of (entry, text); non-trivial = non-empty text", [], "§6 C12"),
 }
 
-NOT_YET = {k: "check not built yet in this session (planned, see DESIGN.md §6)" for k in
-           ["C03","C04","C07","C08","C09","C11","C13","C14","C15","C16","C17","C18","C19","C20"]}
+
+def _p(level, tech, text, note, rule, ref):
+    return (True, level, tech, text, note, rule, [], ref)
+
+P.update({
+ "C03": _p("exploration", "deterministic simulation: generated bind tables + key strings delivered one byte per read / at once / cut at seeded points; nondeterministic executable reference matcher over the live table",
+    "Probe commands bound through the public API record every dispatch; an executable reference matcher written from the statement (longest match, remembered shorter match, macros; both 'discard' and 're-dispatch' where the statement is silent) must accept the observed invocation log.",
+    "trusted: the reference matcher (props/c03.go, ~120 lines); tables live under a lead byte the default tables do not use; sessions whose keymap changed are not judged",
+    "scenario = (keymap, bind table with forced prefix overlaps and macros, input string, delivery schedule); distinct = distinct abstract-state sequence hash; non-trivial = the reference produced a judgement", "§6 C03"),
+ "C04": _p("exploration", "deterministic simulation: VT100 cell-grid emulator fed with the library's output and answering its cursor queries; reference layout anchored at the cell the terminal itself reported",
+    "At every input wait the emulator grid is compared with a reference layout of prompt+buffer (wrap at the width, wide glyphs never straddling the margin, continuation rows, no remnants) and the cursor cell; geometry, prompts, start row (scrolling) and previous frames are swarm parameters.",
+    "trusted: the terminal model incl. pending-wrap/erase-at-margin semantics of xterm; independent width table restricted to characters on which it agrees with the library's by construction; tabs judged by glyph order only",
+    "scenario = (geometry, prompt shape, history lines of targeted shapes, paint/edit script); distinct = distinct abstract-state sequence hash; non-trivial = at least one frame judged; frames_judged/unjudged counted", "§6 C04"),
+ "C07": _p("exploration", "deterministic simulation of undo/redo sessions; monitor over the recorded per-line snapshot history",
+    "A monitor over the buffers shown at input waits checks that undo only yields earlier states of that line, that enough undos reach the initial content, that undo^n redo^n is the identity on text and that an edit after undo discards the redo branch.",
+    "trusted: line identity tracked with the trivial walk model (no search commands in this alphabet)",
+    "scenario = (edit/undo/redo/history-walk script, emacs or vi); distinct = abstract-state sequence hash; non-trivial = at least one undo judged", "§6 C07"),
+ "C08": _p("exploration", "deterministic simulation of accept/exit variants over 1-3 bound history sources (real memory, real file, simulated failing source) with injected Source.Write errors and an EOF fault; per-source reference model of the recording rule",
+    "For each session the contents of every bound source are observed before and after each Readline return and compared with a reference model of the rule (exactly once, unless blank/duplicate/full/error/replay command); a source whose own Write failed may lack the entry, the others may not.",
+    "trusted: reference rule (props/c08_c09.go); history-size 0 accepted as either 'unlimited' or 'keep nothing'",
+    "scenario = (typed line, exit variant, sources with prior contents, history-size, second call); distinct = abstract-state sequence hash; non-trivial = at least one source bound", "§6 C08"),
+ "C09": _p("exploration", "deterministic simulation of history walk/search sessions against a position model; sources compared before/after; simulated source with failing GetLine as fault configuration",
+    "A position model (-1 = line being typed, 0..n-1 from newest) predicts the buffer after every walk command; after search commands the buffer must be the typed text or a stored entry matching the search text; sources must be unchanged; no command may panic or make Readline return.",
+    "trusted: walk model; accepted search texts = text left of the cursor in the shown line or in the line being typed",
+    "scenario = (history contents with duplicates/prefixes/multi-line, typed text, walk/search/isearch script); distinct = abstract-state sequence hash; non-trivial = non-empty history and more than 2 waits", "§6 C09"),
+ "C11": _p("exploration", "deterministic simulation of every way out of Readline (accept variants, abort, EOF key, insert-comment, edit-and-execute failure, panic in a user command, EOF/EIO faults on main and cursor reads, resize before accept) on a real pty; tcgetattr before/after",
+    "The pty is real: termios is set to a random cooked mode before the call and read back from the kernel after Readline returned or a panic propagated; the emulator gives the cursor row/column, cursor style and visibility at exit.",
+    "trusted: terminal model for cursor position/style; reference layout of C04 for 'below the input'",
+    "scenario = (buffer shape, exit path, termios, geometry); distinct = abstract-state sequence hash; every scenario is non-trivial", "§6 C11"),
+ "C13": _p("exploration", "seeded well-formed inputrc programs (nested $if/$else, set keymap, set var, key-name and quoted binds, macros, $include) evaluated by the parser, by NewShell and by re-read-init-file in a live session, against an executable reference evaluator",
+    "No schedule or fault is sampled here (weak fit, stated in DESIGN.md): programs from a grammar are evaluated by a ~60-line reference evaluator written from the statement and compared with Config.Binds/Vars after Parse (through a chunked reader), after NewShell and after re-read-init-file with the file changed under the running editor.",
+    "trusted: reference evaluator and the table of key notations with their meaning (props/c13.go); a second reference encoding the known 'inner $if evaluated alone' defect is used only to name that finding",
+    "run = (program, included files, mode/term/app, route); distinct = distinct hash of (program text, settings, route); non-trivial = more than 2 lines; nesting depth histogram in counters", "§6 C13"),
+ "C14": _p("exploration", "deterministic simulation of completion sessions with generated completers; locality oracle on the buffer at every wait while the menu is open; Ctrl-C restore; resize while the menu is open as a separate configuration",
+    "For generated (buffer, cursor, candidate set) triples the buffer at every wait with the menu active (and at the wait where a candidate is accepted) must be prefix + candidate + suffix; Ctrl-C in an active menu must restore buffer and cursor and keep the call alive.",
+    "trusted: blank-delimited word rule computed by the harness; keys after the menu closed start new completions and are not judged",
+    "scenario = (buffer, cursor, candidates, menu keys, optional abort/resize); distinct = abstract-state sequence hash; non-trivial = a candidate was inserted", "§6 C14"),
+ "C15": _p("exploration", "deterministic simulation of menu-complete cycles (forward, backward, mixed, resize mid-cycle) over candidate sets of 1-60 values on terminals 20-200 x 5-60",
+    "The word inserted after each of 2N+3 menu keys is read from the buffer; consecutive windows of N selections must be permutations of the candidate set; direction reversals must return to the previously shown value.",
+    "trusted: locality of insertion (C14) to read the word",
+    "scenario = (candidate set shape: plain/described/aliased/tags/long, geometry, direction); distinct = abstract-state sequence hash; non-trivial = more than one candidate", "§6 C15"),
+ "C16": _p("exploration", "deterministic simulation of kill-then-yank sessions by command name; contiguous-run oracle on buffers before/after kill/yank and the kill register",
+    "For every kill command by name (with numeric arguments, marks, multi-line and multi-byte buffers) the removed text must be one contiguous run equal to the kill buffer, and yank must insert exactly the last non-empty kill; a single kill followed by yank must restore the buffer.",
+    "trusted: removed-run computation accepts every position whose removal gives the observed buffer",
+    "scenario = (buffer, cursor, kill command(s), yank); distinct = abstract-state sequence hash; non-trivial = something was removed", "§6 C16"),
+ "C17": _p("exploration", "paired deterministic sessions from identical states: [count] d <motion> versus [count] y <motion> (and visual variants)",
+    "Two sessions share the setup keys; the text removed by delete must be one contiguous run, equal to the register content, equal to what yank of the same motion copied, and yank must leave the buffer unchanged.",
+    "trusted: pairing by identical observed (buffer, cursor) after setup; otherwise not judged",
+    "scenario = (buffer, cursor, motion or text object, count, visual flag); distinct = abstract-state sequence hash; every judged pair is non-trivial", "§6 C17"),
+ "C18": _p("exploration", "paired deterministic sessions: keys K typed twice versus recorded once and replayed (emacs C-x ( ) e, vi q<r> @<r>), recording chunked at seeded points",
+    "Final (buffer, cursor) of the two sessions must be equal; recording happens across seeded read cuts so that keys recorded across prefix waits and multi-key reads are covered.",
+    "trusted: K must end in vi command mode for the vi variant (else q/@ are text), checked on the observed keymap",
+    "scenario = (starting buffer, key script K, style, register); distinct = abstract-state sequence hash; non-trivial = non-empty K", "§6 C18"),
+ "C19": _p("exploration", "exhaustive single-rune and seeded multi-rune Escape/Unescape round trips, all default bindings, and dump-functions/dump-variables/dump-macros/print-last-kbd-macro output captured from the simulated terminal and parsed back",
+    "Weak fit (stated in DESIGN.md): the first sentence is a pure-function law checked exhaustively for runes 0x00-0xFF and all default binds; the dump commands only exist inside the live editor, so their raw terminal output is captured by the simulator between two input waits and re-parsed into a fresh Config.",
+    "trusted: extraction of dump lines from the raw stream (CSI sequences stripped, lines starting with a quote or with 'set ')",
+    "run = (rune sequence | configuration + dump command | recorded macro); distinct = distinct payload hash; every run is non-trivial; indexes 0..255 enumerate the single runes", "§6 C19"),
+ "C20": _p("exploration", "deterministic simulation with injected SIGWINCH / resize / Printf / PrintTransientf disturbances pinned to the n-th occurrence of named scheduling points, one-runner scheduler choosing every interleaving from the seed; reference = undisturbed run",
+    "The resize watcher and application Printf callers are real goroutines released one at a time at guarded yield points; each disturbance is injected when a named task reaches a named point (main loop top, during refresh, during the cursor query, at the report hand-off, while waiting, ...). Judged: no panic, no deadlock or stuck task, same (line, err) as the undisturbed run, consistent screen at the next clean input wait. The quick tier includes a systematic sweep of single disturbances over (site x kind x occurrence).",
+    "trusted: yield points are where interleaving matters (DESIGN.md §3); between two yield points a task runs alone",
+    "scenario = (key script, disturbance plan, enabled yield-site subset, schedule seed); distinct = distinct interleaving/abstract-state hash; non-trivial = at least one disturbance fired", "§6 C20"),
+})
+
+NOT_YET = {}
 
 def main():
     commits = subprocess.run(["git","-C","/repo","log","--format=%h %s"],capture_output=True,text=True).stdout.splitlines()
